@@ -1,5 +1,8 @@
 import MythVerif.Proofs.PiDagCert
 import MythVerif.Proofs.PiDagIntern
+import MythVerif.Proofs.PiDagShrink
+import MythVerif.Proofs.PiDagStrings
+import MythVerif.Properties.C18
 /-!
 # C19 — DAG files are well formed and survive a dump / read / convert round trip
 
@@ -74,5 +77,81 @@ theorem C19_intern (names : List Nat) :
     have a := h4 j hj; have b := h4 k hk
     rw [e, ← b] at a
     exact (List.getElem?_inj (hlt j hj) h1).mp a
+
+/-
+The full statement about `flatten` (NOT proved in general; established per run by executing the
+verified checker on every dumped DAG, contracted or not):
+
+  theorem C19_flatten_wf (v : Variant) (o : Opts) (sc nw : Nat) (t : Tree) (h : wnTask t = true) :
+      wellFormed (flatten sc nw (record v o sc t)) = true
+-/
+/-- the part of `C19_flatten_wf` that is proved for every in-memory DAG (contracted in any way):
+    the string-table conjunct of `wellFormed` (every `file_idx` inside a duplicate-free table),
+    `dr_pi_dag_enum_nodes` gives every materialised node exactly one slot of `T`, and slot 0 is the
+    root with its `info` (work, critical path, counts, node counters) unchanged by the copy -/
+theorem C19_flatten_wf_partial (sc nw : Nat) (d : DNode) :
+    (wfReport (flatten sc nw d)).strings = true ∧
+    (flatten sc nw d).T.size = d.count ∧
+    (flatten sc nw d).T[0]!.info.c.t1 = d.info.c.t1 ∧ (flatten sc nw d).T[0]!.info.c.tinf = d.info.c.tinf ∧
+    (flatten sc nw d).T[0]!.info.c.nc = d.info.c.nc ∧ (flatten sc nw d).T[0]!.info.c.ec = d.info.c.ec ∧
+    (flatten sc nw d).T[0]!.info.cur = d.info.cur ∧ (flatten sc nw d).T[0]!.info.min = d.info.min := by
+  obtain ⟨h1, h2⟩ := flatten_spec sc nw d
+  rw [h2]
+  exact ⟨flatten_wfStrings sc nw d, h1, rfl, rfl, rfl, rfl, rfl, rfl⟩
+
+/-- hence the root of every dumped DAG carries exactly the totals of the uncontracted interval
+    sequence, whatever the contraction options were (C18 carried over to the file) -/
+theorem C19_dump_root_totals (o : Opts) (sc nw : Nat) (t : Tree) (h : wnTask t = true) :
+    (flatten sc nw (record .fixed o sc t)).T[0]!.info.c.t1 = flatWork (leavesTree t) ∧
+    (flatten sc nw (record .fixed o sc t)).T[0]!.info.c.nc = flatNC (leavesTree t) ∧
+    (flatten sc nw (record .fixed o sc t)).T[0]!.info.c.ec = flatEC (leavesTree t) ∧
+    (flatten sc nw (record .fixed o sc t)).T[0]!.info.c.tinf = maxFinish (leafInfosTree .fixed t (rootCursor sc)) ∧
+    (flatten sc nw (record .fixed o sc t)).T.size = (record .fixed o sc t).info.cur := by
+  obtain ⟨_, h0, h1, h2, h3, h4, _, _⟩ := C19_flatten_wf_partial sc nw (record .fixed o sc t)
+  rw [h1, h2, h3, h4, h0]
+  exact ⟨C18_work_is_sum .fixed o sc t h, (C18_counts_exact o sc t h).1, (C18_counts_exact o sc t h).2,
+    C18_span_eq_est_finish .fixed o sc t h, (C18_node_count_bookkeeping .fixed o sc t h).symm⟩
+
+/-- **shrinking a DAG during conversion preserves its totals**: for every well-formed DAG and all
+    conversion-time contraction options the root slot of the converted DAG carries the same
+    work, critical path, interval and edge counts, est, span and node counters as the original -/
+theorem C19_prune_totals (o : ShrinkOpts) (G : PiDag) (h : wellFormed G = true) :
+    SameTotals (shrink o G).T[0]! G.T[0]! :=
+  shrink_root o G (rootOk_of_wf G h).1 (rootOk_of_wf G h).2
+
+/-
+The full statement about the shrinking copy (NOT proved in general; established per run by executing
+the verified checker on every converted DAG):
+
+  theorem C19_prune_wf (o : ShrinkOpts) (G : PiDag) (h : wellFormed G = true) :
+      wellFormed (shrink o G) = true
+-/
+/-- the part of `C19_prune_wf` that is proved: the converted DAG has a root slot of the same kind -/
+theorem C19_prune_wf_partial (o : ShrinkOpts) (G : PiDag) (h : wellFormed G = true) :
+    (shrink o G).T[0]!.info.c.kind = G.T[0]!.info.c.kind :=
+  (C19_prune_totals o G h).2.2.2.2.2.1
+
+/-! ### non-vacuity -/
+
+def mkN (k : NKind) (eb ee a b : Nat) : PNode :=
+  { info := { c := { kind := k } }, eb := eb, ee := ee, a := a, b := b }
+
+/-- the dump of the execution `T O E` (a task made of an `other` and an `end` interval): three
+    slots, one `other_cont` edge -/
+def tiny : PiDag :=
+  { T := #[mkN .task 0 0 1 3, mkN .other 0 1 0 0, mkN .endTask 1 1 0 0],
+    E := #[⟨.otherCont, 1, 2⟩], S := [0], nw := 1 }
+
+/-- the hypothesis of `C19_wf_replay` is satisfiable … -/
+example : wellFormed tiny = true := by decide +kernel
+/-- … and not trivially true: without its edge the `end` interval is unreachable and the checker
+    rejects the DAG (edge count and certificate fail) -/
+example : wellFormed { tiny with E := #[], T := #[mkN .task 0 0 1 3, mkN .other 0 0 0 0, mkN .endTask 0 0 0 0] } = false := by
+  decide +kernel
+/-- a child offset pointing outside the DAG is rejected -/
+example : wellFormed { tiny with T := #[mkN .task 0 0 1 4, mkN .other 0 1 0 0, mkN .endTask 1 1 0 0] } = false := by
+  decide +kernel
+/-- interning `a b a c b` : three distinct names, indices 0 1 0 2 1 -/
+example : internAll [] [7, 9, 7, 4, 9] = ([7, 9, 4], [0, 1, 0, 2, 1]) := by decide
 
 end MythVerif.PiDag
